@@ -866,6 +866,18 @@ impl<'tcx> Extract<'tcx> {
                                             }
                                         }
                                     }
+                                    if let DefKind::Ctor(..) = tcx.def_kind(target.def_id()) {
+                                        // tuple-struct / enum-variant constructor used as a function
+                                        let vdid = tcx.parent(target.def_id());
+                                        let adid = tcx.parent(vdid);
+                                        if let DefKind::Variant = tcx.def_kind(vdid) {
+                                            ckv.push(("ctor_adt", s(self.path(adid))));
+                                            ckv.push(("ctor_variant", s(tcx.item_name(vdid).to_string())));
+                                        } else {
+                                            ckv.push(("ctor_adt", s(self.path(vdid))));
+                                            ckv.push(("ctor_variant", s("")));
+                                        }
+                                    }
                                     ckv.push(("to", s(self.inst_key(&target))));
                                     ckv.push(("to_def", s(self.path(target.def_id()))));
                                     ckv.push(("via", s(via)));
